@@ -348,7 +348,8 @@ pub(crate) fn extract_title(line: &str) -> Option<(String, String)> {
 /// On the first line ending in foo, this function returns the backticks and
 /// the language. On all other lines it returns None.
 pub(crate) fn extract_code_block_start(line: &str) -> Option<(&str, &str, &str)> {
-    if line == "```" {
+    // a fence without info string, of any length
+    if line.len() >= 3 && line.bytes().all(|byte| byte == b'`') {
         return Some((line, "", ""));
     }
 
